@@ -112,9 +112,20 @@ Definition must_or_either (d : dtype) (v : option tval) : spec_out :=
   | None => SMustErr
   end.
 
+(* integer element types compute modulo 2^bits (two's complement for the signed ones): exact integer
+   arithmetic, never a detour through floating point *)
+Definition wrap_dt (d : dtype) (z : Z) : Z :=
+  let w (bits : Z) (signed : bool) :=
+    let m := z mod 2 ^ bits in if signed && (2 ^ (bits - 1) <=? m) then m - 2 ^ bits else m in
+  match d with
+  | Int32 => w 32 true | Int64 => w 64 true | Uint32 => w 32 false | Uint64 => w 64 false
+  | _ => z
+  end.
+Definition vzw (d : dtype) (t : tensor Z) : tval := {| dt := d; sh := tshape t; pl := map (wrap_dt d) (tdata t) |}.
+
 Definition matmul_s (a b : tval) : spec_out :=
   if negb (dtype_eqb (dt a) (dt b)) then SMustErr
-  else must_or_either (dt a) (option_map (vz (dt a)) (matmul_spec 0 Z.add Z.mul (tz a) (tz b))).
+  else must_or_either (dt a) (option_map (vzw (dt a)) (matmul_spec 0 Z.add Z.mul (tz a) (tz b))).
 
 (* Y = alpha * op(A) * op(B) + beta * C, C unidirectionally broadcastable to (M, N) *)
 Definition gemm_s (attrs : list attr) (a b : tval) (c : option tval) : spec_out :=
